@@ -111,7 +111,12 @@ def run(ctx):
         if np.any(d_el <= 1e-3):
             continue
         c = 1480.0
-        tx, rx = fixtures.pairs(rng, numel, "fmc")
+        capture = ["fmc", "hmc", "hmc_expanded"][int(rng.integers(0, 3))]
+        tx, rx = fixtures.pairs(rng, numel, capture[:3])
+        order = ["canonical", "rx_major", "shuffled"][int(rng.integers(0, 3))]
+        o_ = {"canonical": np.arange(len(tx)), "rx_major": np.lexsort((tx, rx)), "shuffled": rng.permutation(len(tx))}[order]
+        tx, rx = tx[o_], rx[o_]
+        ctx.count("frontwall_capture:" + capture + "/" + order)
         dt, ns = 2e-8, 6000
         tt = rng.normal(size=(len(tx), ns)) * 0.05
         for k, (i, j) in enumerate(zip(tx, rx)):
@@ -141,13 +146,18 @@ def run(ctx):
         fr = fixtures.make_frame(tt, t_start, dt, tx, rx, probe, None)
         couplant = arim.Material(c, density=1000.0, state_of_matter="liquid")
         try:
+            if capture == "hmc_expanded":
+                # as the library's own immersion example does: the half matrix (in whatever order it was recorded) is expanded
+                # by reciprocity first, then registered
+                fr = fr.expand_frame_assuming_reciprocity()
             z, th, times = measurement.find_probe_loc_from_frontwall(fr, couplant, **kw_win)
         except Exception as e:
             ctx.violate(f"find_probe_loc_from_frontwall({sorted(kw_win)}) raised {type(e).__name__}: {str(e)[:80]}",
                         {"op": "find_probe_loc_from_frontwall", "numel": numel, "theta": theta, "standoff": standoff, "window": kw_win}, {"kind": "frontwall"})
             continue
         loc = fr.probe.locations.coords
-        cj = {"op": "find_probe_loc_from_frontwall", "numel": numel, "theta": theta, "standoff": standoff, "window": kw_win}
+        cj = {"op": "find_probe_loc_from_frontwall", "numel": numel, "theta": theta, "standoff": standoff, "window": kw_win, "capture": capture,
+              "tx": [int(a) for a in tx], "rx": [int(b) for b in rx]}
         ctx.case(("e2e", numel, theta, standoff), True)
         # sampling of the echo time limits the accuracy to c dt / 2 per element
         if not (np.all(np.abs(-loc[:, 2] - d_el) <= 2 * c * dt) and abs(th - theta) <= 0.05 and abs(-z - standoff) <= 4 * c * dt):
